@@ -42,6 +42,8 @@ def _arr(vals, dtype):
     vals = [fr(v) for v in vals]
     if dtype == "int":
         return np.array([int(v) for v in vals], dtype=np.int64)
+    if dtype in ("uint8", "int32", "float32"):
+        return np.array([float(v) for v in vals]).astype({"uint8": np.uint8, "int32": np.int32, "float32": np.float32}[dtype])
     return np.array([float(v) for v in vals], dtype=float)
 
 
@@ -127,13 +129,17 @@ def _labels(case, law):
         if dt.get(k) == "int":
             lab.append("int_" + k)
     lab.append("wclass_" + case.get("wclass", "?"))
+    if len(case["W"]) > 64:
+        lab.append("big_model")
+    if len(case.get("followups", [])) >= 2:
+        lab.append("followup_calls")
     for nm in ("do", "noise", "shift"):
         lab.append("%s_as_%s" % (nm, case.get("present", {}).get(nm, "dict")))
     return sorted(set(lab))
 
 
 def _nontrivial(case, labels):
-    return "intervened" in labels and any(l in labels for l in ("overlap", "nonsource_target", "neg_weight", "int_array_fractional_param"))
+    return "intervened" in labels and any(l in labels for l in ("overlap", "nonsource_target", "neg_weight", "int_array_fractional_param", "big_model"))
 
 
 def check(case):
@@ -164,6 +170,28 @@ def check(case):
         if how == "omit" and not case.get(nm):
             continue
         kwargs[key] = _interventions(case.get(nm, {}), how)
+    ctx = "W=%s means=%s variances=%s dtypes=%s do=%s noise=%s shift=%s" % (
+        case["W"] if p <= 12 else "<%dx%d>" % (p, p), case["means"], case["variances"], dt, case.get("do"), case.get("noise"), case.get("shift"))
+    _compare_call(model, law, kwargs, p, "mean_wrong", "cov_wrong", ctx)
+    # further calls on the SAME model (by default an observational one): the law of each call must be the law of
+    # its own interventions, whatever was asked before
+    for k, spec in enumerate(case.get("followups", [{}])):
+        nxt = dict(case, do=spec.get("do", {}), noise=spec.get("noise", {}), shift=spec.get("shift", {}))
+        law_k = exact_law(nxt)
+        if law_k["kappa"] > KAPPA_MAX:
+            continue
+        kw = {}
+        for nm, key in (("do", "do_interventions"), ("noise", "noise_interventions"), ("shift", "shift_interventions")):
+            if spec.get(nm):
+                kw[key] = _interventions(spec[nm], "dict")
+        _compare_call(model, law_k, kw, p, "law_depends_on_earlier_calls", "law_depends_on_earlier_calls",
+                      "call #%d %r on the same model after %r; %s" % (k + 2, kw, kwargs, ctx))
+    if not ((keep[0] == Warr).all() and (keep[1] == means).all() and (keep[2] == variances).all()):
+        raise Violation("input_modified", "LGANM modified the caller's arrays; %s" % ctx)
+    return _labels(case, law)
+
+
+def _compare_call(model, law, kwargs, p, kind_mean, kind_cov, ctx):
     dist = must(lib(model.sample, population=True, **kwargs), "LGANM.sample(population=True, %r)" % (kwargs,))
     mean = np.asarray(dist.mean, dtype=float)
     cov = np.asarray(dist.covariance, dtype=float)
@@ -175,27 +203,11 @@ def check(case):
     want_cov = np.array(X.to_float(law["cov"])).reshape(p, p)
     em = np.abs(mean - want_mean).max()
     ec = np.abs(cov - want_cov).max()
-    ctx = "W=%s means=%s variances=%s dtypes=%s do=%s noise=%s shift=%s" % (
-        case["W"], case["means"], case["variances"], dt, case.get("do"), case.get("noise"), case.get("shift"))
+    show = (lambda a: a.tolist()) if p <= 12 else (lambda a: "<array, worst entry %s>" % (np.unravel_index(np.argmax(np.abs(a)), a.shape),))
     if not (em <= tol_mean):
-        raise Violation("mean_wrong", "mean %s vs exact %s (err %.3g > tol %.3g); %s" % (mean.tolist(), want_mean.tolist(), em, tol_mean, ctx))
+        raise Violation(kind_mean, "mean %s vs exact %s (err %.3g > tol %.3g); %s" % (show(mean), show(want_mean), em, tol_mean, ctx))
     if not (ec <= tol_cov):
-        raise Violation("cov_wrong", "covariance %s vs exact %s (err %.3g > tol %.3g); %s" % (cov.tolist(), want_cov.tolist(), ec, tol_cov, ctx))
-    # a second call on the SAME model, now observational: the law must not depend on the earlier call
-    obs = dict(case, do={}, noise={}, shift={})
-    law0 = exact_law(obs)
-    if law0["kappa"] <= KAPPA_MAX:
-        d0 = must(lib(model.sample, population=True), "LGANM.sample(population=True) after an intervened call")
-        t_m = 100 * EPS * p * law0["kappa"] * law0["normM"] * law0["normmu"] + 1e-300
-        t_c = 100 * EPS * p * law0["kappa"] * law0["normM"] ** 2 * law0["normD"] + 1e-300
-        e_m = np.abs(np.asarray(d0.mean, dtype=float) - np.array(X.vto_float(law0["mean"]))).max()
-        e_c = np.abs(np.asarray(d0.covariance, dtype=float) - np.array(X.to_float(law0["cov"])).reshape(p, p)).max()
-        if not (e_m <= t_m and e_c <= t_c):
-            raise Violation("observational_law_after_intervention", "after sample(%r) the observational population law of the same model is wrong "
-                            "(mean err %.3g, cov err %.3g); %s" % (kwargs, e_m, e_c, ctx))
-    if not ((keep[0] == Warr).all() and (keep[1] == means).all() and (keep[2] == variances).all()):
-        raise Violation("input_modified", "LGANM modified the caller's arrays; %s" % ctx)
-    return _labels(case, law)
+        raise Violation(kind_cov, "covariance %s vs exact %s (err %.3g > tol %.3g); %s" % (show(cov), show(want_cov), ec, tol_cov, ctx))
 
 
 def _check_ranges(case):
@@ -262,7 +274,8 @@ def law_case(draw, p_max):
         variances = [fstr(draw(_dy(5, 8, lo=0))) for _ in range(p)]
     dtypes = {}
     Wint = all(fr(x).denominator == 1 for r in W for x in r)
-    dtypes["W"] = draw(st.sampled_from(["int", "float"])) if Wint else "float"
+    Wsmall = Wint and all(0 <= fr(x) <= 255 for r in W for x in r)
+    dtypes["W"] = draw(st.sampled_from(["int", "float"] + (["uint8", "int32"] if Wsmall else ["int32"]))) if Wint else "float"
     dtypes["means"] = draw(st.sampled_from(["int", "float"])) if integral_model else "float"
     dtypes["variances"] = draw(st.sampled_from(["int", "float"])) if integral_model else "float"
     # intervention assignment: one of the 8 overlap classes per variable
@@ -278,12 +291,46 @@ def law_case(draw, p_max):
             noise[str(t)] = draw(_param_strategy(integral_param))
         if "shift" in cls_t:
             shift[str(t)] = draw(_param_strategy(integral_param))
+    if tg and draw(st.integers(0, 5)) == 0:
+        # an intervention that restates the node's own noise law (the law changes only through the cut edges)
+        t = tg[0]
+        which = draw(st.sampled_from(["do", "noise"]))
+        (do if which == "do" else noise)[str(t)] = [means[t], variances[t]]
+    followups = [{}]
+    if tg and draw(st.booleans()):
+        # the same parameters under another intervention type, then observational again
+        t = str(tg[0])
+        src = do[t] if t in do else noise[t] if t in noise else shift[t]
+        other = draw(st.sampled_from(["do", "noise", "shift"]))
+        followups = [{other: {t: src}}, {}]
     present = {}
     for nm, d in (("do", do), ("noise", noise), ("shift", shift)):
         present[nm] = "dict" if d else draw(st.sampled_from(["omit", "empty", "none"]))
     wform = draw(st.sampled_from(["array", "array", "list"] + (["scalar"] if p == 1 else [])))
     return {"sub": "law", "W": W, "means": means, "variances": variances, "dtypes": dtypes, "do": do, "noise": noise,
-            "shift": shift, "present": present, "Wform": wform, "wclass": cls}
+            "shift": shift, "present": present, "Wform": wform, "wclass": cls, "followups": followups}
+
+
+@st.composite
+def big_case(draw):
+    """Sparse models on 65..72 variables; several calls on the same model whose do-targets differ only in high labels."""
+    p = draw(st.integers(65, 72))
+    order = list(draw(st.permutations(list(range(p)))))
+    W = [[0] * p for _ in range(p)]
+    for b in range(1, p):
+        k = draw(st.sampled_from([0, 1, 1, 2]))
+        for a in draw(st.lists(st.integers(max(0, b - 6), b - 1), min_size=min(k, b), max_size=min(k, b), unique=True)):
+            W[order[a]][order[b]] = fstr(draw(st.sampled_from([Fraction(1), Fraction(-1), Fraction(1, 2), Fraction(-3, 2)])))
+    means = [draw(st.integers(-2, 2)) for _ in range(p)]
+    variances = [draw(st.integers(1, 3)) for _ in range(p)]
+    lo = draw(st.integers(0, 62))
+    hi1, hi2 = draw(st.integers(64, p - 1)), draw(st.integers(64, p - 1))
+    par = lambda: [fstr(Fraction(draw(st.integers(-8, 8)), 4)), fstr(Fraction(draw(st.integers(1, 8)), 4))]
+    first = {str(lo): par()}
+    second = {str(lo): first[str(lo)], str(hi1): par()}
+    return {"sub": "law_big", "W": W, "means": means, "variances": variances, "dtypes": {"W": "float", "means": "int", "variances": "int"},
+            "do": first, "noise": {}, "shift": {}, "present": {"do": "dict", "noise": "omit", "shift": "omit"}, "Wform": "array",
+            "wclass": "sparse_big", "followups": [{"do": second}, {}, {"do": {str(hi2): par()}}, {"noise": {str(hi2): par()}}]}
 
 
 @st.composite
@@ -314,6 +361,9 @@ def plan(tier, seed):
     shards = 16 if tier == "quick" else 64
     for k in range(shards):
         jobs.append({"sub": "law", "seed": seed, "shard": k, "n": max(1, n // shards), "p_max": 8 if tier == "quick" else 12, "cost": 10})
+    nb = scaled(16 if tier == "quick" else 320)
+    for k in range(16 if tier == "quick" else 32):
+        jobs.append({"sub": "law_big", "seed": seed, "shard": k, "salt": 11, "n": max(1, nb // (16 if tier == "quick" else 32)), "cost": 30})
     nr = scaled(1600 if tier == "quick" else 20000)
     for k in range(4 if tier == "quick" else 16):
         jobs.append({"sub": "ranges", "seed": seed, "shard": k, "salt": 5, "n": max(1, nr // (4 if tier == "quick" else 16)), "cost": 2})
@@ -324,6 +374,9 @@ def run(job):
     acc = Acc(job["sub"])
     if job["sub"] == "law":
         run_property(acc, law_case(job["p_max"]), _law_check, _nontrivial, job["n"], job_seed(job))
+        acc.discarded = acc.classes.get("discard_illconditioned", 0)
+    elif job["sub"] == "law_big":
+        run_property(acc, big_case(), _law_check, _nontrivial, job["n"], job_seed(job), shrink=False)
         acc.discarded = acc.classes.get("discard_illconditioned", 0)
     else:
         run_property(acc, ranges_case(), check, lambda c, l: "proper_range" in l and c["p"] >= 3, job["n"], job_seed(job))
